@@ -33,3 +33,6 @@ pub proof fn canary_spec_diff_major_only(a: VKey, b: VKey) requires kcmp(a, b) !
 pub proof fn canary_spec_minv_any(bs: BoundSet, m: Version) requires bs_wf(bs) ensures minv_post(bs, Some(m)) {}
 pub proof fn canary_spec_conj_any(s: Seq<Option<BoundSet>>) ensures conj_post(s, Seq::<BoundSet>::empty()) {}
 pub proof fn canary_spec_small_always(bs: BoundSet) requires bs_wf(bs) ensures bs_small(bs) {}
+// (4) the cover lemmas of the clause grids (m_props::cover_*) are not trivially true: with one shape left out they fail
+pub proof fn canary_cover_missing_shape(p: Partial) requires wf_partial(p) ensures p.major is None || (p.major is Some && p.minor is None) || (p.major is Some && p.minor is Some && p.patch is Some) {}
+pub proof fn canary_c02_concat_widens(sa: Seq<Option<BoundSet>>, sb: Seq<Option<BoundSet>>, ra: Seq<BoundSet>, r: Seq<BoundSet>, v: VKey) requires conj_post(sa, ra), conj_post(sa + sb, r), ra.len() == 1, within(ra[0], v) ensures r.len() == 1 && within(r[0], v) {}
